@@ -78,6 +78,18 @@ def task_sets(tier):
         out.append(("v2c", list(t), None if tier == "thorough" else 2))
     out.append(("v3", ["getA", "getB", "setW1"], 2 if tier == "quick" else None))
     out.append(("v3x2", ["getA", "walk", "getB"], 2))
+    # answers built on arrival (their engine time is the arrival time) and
+    # delivered in any order; clocks that tick only at every other read
+    out.append(("v3@arrival", ["getA", "getB"], None))
+    out.append(("v3@arrival", ["getA", "walk"], None))
+    out.append(("v3@arrival", ["getA", "getB", "setW1"], 2))
+    out.append(("v3:alt", ["getA", "getB", "multiget"], 2 if tier == "quick" else None))
+    out.append(("v3:alt", ["getA", "getB", "getnext", "setW1"], 2))
+    out.append(("v3:alt3", ["getA", "getB", "multiget"], 2 if tier == "quick" else None))
+    out.append(("v3:alt4", ["getA", "getB", "multiget"], 2))
+    out.append(("v3:tick0", ["getA", "getB", "multiget"], 2))
+    out.append(("v2c:alt", ["getA", "getB", "multiget"], None))
+    out.append(("v2c", ["setW1", "getA", "getB"], None))
     if tier == "thorough":
         out.append(("v2c", ["getA", "getB", "getnext", "multiget"], None))
         out.append(("v2c", ["getA", "walk", "setW1", "walk2"], 3))
@@ -128,13 +140,27 @@ async def run_op_async(client, op):
     raise HarnessError(name)
 
 
-def make_run(env, names, tick=1.0):
+def make_run(env, names, tick=1.0, mode="tick1"):
     from puresnmp import Client
     from puresnmp.credentials import V2C
 
+    arrival = env.endswith("@arrival")  # the agent builds its answer when the request arrives
+    env = env.split("@")[0]
+
     def run(ctx):
         CLOCK.reset()
-        CLOCK.tick_per_read = tick
+        if mode == "tick1":
+            CLOCK.tick_per_read = tick
+        elif mode.startswith("alt"):
+            # the wall clock moves on by one second after every n-th read:
+            # some concurrent requests share a request id, others do not
+            every = int(mode[3:] or 2)
+
+            def alt(clk):
+                if clk.reads % every == 0:
+                    clk.advance(1.0)
+
+            CLOCK.on_read = alt
         world.reset_plugins()
         loop = VLoop()
         sender = ControlledSender(loop)
@@ -147,6 +173,7 @@ def make_run(env, names, tick=1.0):
             if env == "v3x2":
                 clients.append(Client("192.0.2.1", lib_creds("bob"), sender=sender))
         order = []  # task index per answered request
+        bad_kwargs = []
         stuck = False
         max_pending = 0
         results = {}
@@ -169,8 +196,21 @@ def make_run(env, names, tick=1.0):
                 k = ctx.choose(len(pend), "serve", free=not has_last) if len(pend) > 1 else 0
                 j = pend[k]
                 entry = sender.pending[j]
+                if entry["kwargs"] != {"timeout": 6, "retries": 10}:
+                    bad_kwargs.append(dict(entry["kwargs"]))
+                if arrival:
+                    # answers were built when the requests arrived (engine
+                    # time of that moment); only their delivery order is chosen
+                    for e in sender.pending:
+                        if "answer" not in e:
+                            try:
+                                e["answer"] = agent.handle(e["packet"])
+                            except ragent.Drop as d:
+                                e["answer"] = d
                 try:
-                    data = agent.handle(entry["packet"])
+                    data = entry["answer"] if arrival else agent.handle(entry["packet"])
+                    if isinstance(data, ragent.Drop):
+                        raise data
                     sender.answer(j, data)
                 except ragent.Drop as d:
                     from puresnmp.exc import Timeout
@@ -195,9 +235,10 @@ def make_run(env, names, tick=1.0):
         logged = [str(c.get("message")) + ": " + repr(c.get("exception"))[:120] for c in loop.logged]
         loop.close()
         CLOCK.tick_per_read = 0.0
+        CLOCK.on_read = None
         verdicts = [e.get("verdict") for e in agent.log]
         obs = (tuple(sorted(results.items())), stuck, tuple(logged), tuple(v for v in verdicts if v not in ("ok", "unknown-engine-id")))
-        info = {"order": order, "max_pending": max_pending, "agent_log": agent.log}
+        info = {"order": order, "max_pending": max_pending, "agent_log": agent.log, "bad_kwargs": bad_kwargs}
         run.last_info = info
         return obs, []
 
@@ -266,8 +307,11 @@ def shards(tier):
 
 def run_shard(params, acc):
     env, names, bound = params["env"], params["names"], params["bound"]
-    solo = solo_results(env, names)
-    run = make_run(env, names)
+    mode = "tick1"
+    if ":" in env:
+        env, mode = env.split(":")
+    solo = solo_results(env.split("@")[0], names)
+    run = make_run(env, names, mode=mode)
     racing = "getW1" in names and "setW1" in names
     seen_kinds = set()
     info = {"n": 0}
@@ -276,7 +320,7 @@ def run_shard(params, acc):
         li = run.last_info
         results = dict(obs[0])
         info["n"] += 1
-        facts = {"env": env, "tasks": names, "served_order": li["order"], "max_pending": li["max_pending"]}
+        facts = {"env": env, "clock": mode, "tasks": names, "served_order": li["order"], "max_pending": li["max_pending"]}
 
         def bad(kind, **detail):
             violations.append({"kind": kind, "detail": {**facts, **detail}, "facts": facts})
@@ -287,6 +331,8 @@ def run_shard(params, acc):
             bad("loop-exception-handler-called", logged=list(obs[2])[:3])
         if obs[3]:
             bad("agent-refused-a-request", verdicts=list(obs[3])[:5])
+        if li["bad_kwargs"]:
+            bad("request-sent-with-foreign-transport-settings", kwargs=li["bad_kwargs"][:3])
         for i, n in enumerate(names):
             got = results.get(i)
             want = solo[i]
@@ -336,14 +382,15 @@ def run_shard(params, acc):
             continue
         seen_kinds.add(k)
         v = dict(v)
-        v["case"] = {"env": env, "names": names, "choices": list(choices)}
+        v["case"] = {"env": env, "names": names, "choices": list(choices), "mode": mode}
         acc.violation(v)
 
 
 def replay(case):
     env, names = case["env"], case["names"]
-    solo = solo_results(env, names)
-    run = make_run(env, names)
+    mode = case.get("mode", "tick1")
+    solo = solo_results(env.split("@")[0], names)
+    run = make_run(env, names, mode=mode)
     ctx, obs, _ = explore.run_once(run, case["choices"])
     results = dict(obs[0])
     out = []
